@@ -8,6 +8,8 @@ transaction survives every crash and an uncommitted one is invisible is the jour
 contract, validated on recorded disk traces by the crash harness (C01) — listed as pending for
 C18 until the kvs crash run exists.
 -/
+import GoNfsd.Lemmas.KvsLocks
+import GoNfsd.Props.C06
 import GoNfsd.Lemmas.Reveal
 import GoNfsd.Model.Kvs
 import GoNfsd.Lemmas.ObjLog
@@ -146,7 +148,7 @@ theorem kvs_does_not_rely_on_the_remembered_position : GoNfsd.Gen.Skeleton.flush
 
 /-- `MultiPut` and `Get` take the locks of their keys before they touch the journal and give them
     back after `CommitWait(true)` has returned (table regenerated from kvs/kvs.go on every run):
-    the discipline of model M11, and the ownership the journal requires of concurrent transactions. -/
+    the discipline of model M14, and the ownership the journal requires of concurrent transactions. -/
 theorem kvs_holds_the_locks_across_the_waiting_commit :
     ∀ f ∈ GoNfsd.Gen.Skeleton.kvsLockUses, GoNfsd.Model.Skeleton.simpleCheck f = true := by decide
 
@@ -173,5 +175,51 @@ theorem kvs_gets_return_only_durable_values (ops : List GoNfsd.Model.Reveal.Op) 
 example : ∃ s, GoNfsd.Model.Reveal.run GoNfsd.Model.Reveal.empty
       [.acquire 1 5, .commit 1 [(5, 7)] false false, .release 1 5] = some s ∧
     s.read 5 = some 7 ∧ s.recovered 5 = none := ⟨_, rfl, rfl, rfl⟩
+
+/-! ### the locks of a put are taken in ascending order -/
+
+/-- `kvs.lockOrder` (model tied to the Go function by the `klockorder` correspondence): the keys of
+    the put in strictly ascending order — so no key twice — and nothing else. -/
+theorem multiput_locks_exactly_its_keys_in_ascending_order (keys : List Nat) :
+    (lockOrder keys).Pairwise (· < ·) ∧ ∀ x, x ∈ lockOrder keys ↔ x ∈ keys :=
+  ⟨lockOrder_ascending keys, mem_lockOrder keys⟩
+
+/-- a caller somewhere in its acquisition loop: it holds the first `i` locks of its order and asks
+    for the next one (a `Get` is a put of one key at `i = 0`) -/
+def caller (keys : List Nat) (i : Nat) : GoNfsd.Model.Locks.Txn :=
+  { held := (lockOrder keys).take i, waiting := ((lockOrder keys)[i]?).map fun w => (w, false) }
+
+/-- NO SET OF CONCURRENT PUTS AND GETS IS DEADLOCKED, whatever their key sets (overlapping,
+    repeated keys, any order in the request) and wherever each of them stands in its loop: the
+    lock manager's theorem applies because every request is above what its caller holds. -/
+theorem concurrent_puts_and_gets_never_deadlock (cs : List (List Nat × Nat)) (D : List GoNfsd.Model.Locks.Txn) :
+    ¬ GoNfsd.Model.Locks.Deadlocked (cs.map fun c => caller c.1 c.2) D := by
+  apply GoNfsd.Props.C06.ordered_no_deadlock
+  · intro t ht w hw h hh
+    obtain ⟨c, _, rfl⟩ := List.mem_map.mp ht
+    simp only [caller, Option.map_eq_some_iff] at hw
+    obtain ⟨w', hw', e⟩ := hw
+    have ew : w' = w := by injection e
+    subst ew
+    have hs := lockOrder_ascending c.1
+    rw [← List.take_append_drop c.2 (lockOrder c.1), List.pairwise_append] at hs
+    apply hs.2.2 h hh w'
+    have : (lockOrder c.1)[c.2]? = some w' := hw'
+    rw [List.getElem?_eq_some_iff] at this
+    obtain ⟨hlt, hget⟩ := this
+    rw [← hget]
+    exact List.mem_drop_iff_getElem.mpr ⟨0, by simpa using hlt, by simp⟩
+  · intro t ht w hw
+    obtain ⟨c, _, rfl⟩ := List.mem_map.mp ht
+    simp only [caller, Option.map_eq_some_iff] at hw
+    obtain ⟨_, _, e⟩ := hw
+    injection e with _ e2
+    cases e2
+
+/-- the premises are met by real situations: two puts with overlapping key sets given in
+    opposite orders, each holding its first lock and asking for the second, and a get -/
+example : lockOrder [700, 650, 700, 660] = [650, 660, 700] ∧ lockOrder [660, 650] = [650, 660] ∧
+    (caller [700, 650, 700, 660] 1).held = [650] ∧ (caller [700, 650, 700, 660] 1).waiting = some (660, false) ∧
+    (caller [660] 0).waiting = some (660, false) := by decide
 
 end GoNfsd.Props.C18
